@@ -312,6 +312,9 @@ func (c *c20) freeLane() {
 	run := c.run
 	l2 := c.e.L2
 	accts := []sim.Account{c.e.Users[0], c.e.Users[1], c.e.Users[2], c.e.Users[3]}
+	// one matcher for the whole run, as in a node (it lives as long as the process); the whitelist changes under it,
+	// mostly between calls whose contexts carry the same block height
+	h := lanes.NewFreeLaneMatchHandler(l2.AK.AddressCodec(), l2.K).MatchHandler()
 	for i := 0; i < 400 && !run.TooMany(); i++ {
 		nw := c.rng.Intn(4)
 		var wl []string
@@ -329,7 +332,9 @@ func (c *c20) freeLane() {
 		if res := br.L2.Deliver(opchildtypes.NewMsgUpdateParams(br.L2.Authority, &p)); res.Class != sim.OK {
 			panic(res.ErrString())
 		}
-		h := lanes.NewFreeLaneMatchHandler(l2.AK.AddressCodec(), br.L2.K).MatchHandler()
+		if c.rng.Chance(20) {
+			br.L2.NextBlock(1e9)
+		}
 		signer := mon.Pick(c.rng, accts)
 		var payer, granter sdk.AccAddress
 		payerStr := signer.String() // default payer = first signer
